@@ -838,14 +838,11 @@ class NodeFor:
         }
         try:
             return self.evaluateLoop(environment)
-        except BaseException:
-            # a loop left by an error removes its loop variables
-            # like a loop that ends
-            for identifier in self.identifiers:
-                if identifier in environment.map:
-                    environment.remove(identifier)
-            raise
         finally:
+            # however the loop is left (end, break, return, error), its
+            # loop variables are gone afterwards
+            for identifier in self.identifiers:
+                environment.remove(identifier)
             environment.map.update(saved)
 
     def evaluateLoop(self, environment):
